@@ -11,6 +11,7 @@ import numpy as np
 
 from fsic.core import VectorContainer
 from fsic.extensions import AliasMixin
+from fsic.extensions.model import PandasIndexFeaturesMixin
 import fsic
 
 from .. import spans
@@ -23,7 +24,8 @@ TECHNIQUE = 'bounded exhaustive enumeration of spans x labels x slice triples x 
 RULE = ('17 span types (unsorted NumPy labels, labels that are variable/alias/attribute names) x lengths 1..4 (quick) / 1..6 (thorough) x {VectorContainer, parser-built model, aliased model} x every label get / set (set on every variable of the object, status and iterations included), every (start,stop,step) with '
         'start/stop in labels+None+absent and step in {None,1,2,3} get/set, every (write path, position, read path) triple. '
         'non-trivial = access that addresses at least one cell or must be rejected with KeyError'
-        " After each label write: the same write to a variable filled from a sibling's array (attribute, replace_values, add_variable) or from an array shared with a second variable: one cell of one variable changes, the caller's array does not.")
+        " After each label write: the same write to a variable filled from a sibling's array (attribute, replace_values, add_variable) or from an array shared with a second variable: one cell of one variable changes, the caller's array does not."
+        ' Fourth object kind: the pandas extension; label writes after reindex(); prepared writes after a refused add_variable and after `values = kept array`; tuple absent labels on NumPy spans too.')
 ASSUMPTIONS = [
     'pandas partial-string labels, duplicate labels, labels equal under == and None as a slice bound are outside the property',
     'positions come from list(span).index(label)',
@@ -37,6 +39,10 @@ class _ALIASED(AliasMixin, _MODEL):
     ALIASES = {'GDP': 'Y', 'cap': 'K', 'out': 'GDP'}
 
 
+class _PEXT(PandasIndexFeaturesMixin, _MODEL):
+    pass
+
+
 def make(kind, n, obj):
     span, labels = spans.make(kind, n)
     if obj == 'container':
@@ -44,7 +50,7 @@ def make(kind, n, obj):
         c.add_variable('Y', [1.5 + i for i in range(n)])
         c.add_variable('K', [10 * (i + 1) for i in range(n)])
     else:
-        c = (_MODEL if obj == 'model' else _ALIASED)(span, Y=[1.5 + i for i in range(n)])
+        c = {'model': _MODEL, 'aliased': _ALIASED, 'pandas-ext': _PEXT}[obj](span, Y=[1.5 + i for i in range(n)])
         c.add_variable('K', [10 * (i + 1) for i in range(n)], dtype=int)
     return c, labels
 
@@ -62,7 +68,7 @@ def blocks(tier, seed):
     out = []
     for kind in spans.SPAN_TYPES:
         for n in range(1, min(top, spans.MAX_LEN.get(kind, top)) + 1):
-            for obj in ('container', 'model', 'aliased'):
+            for obj in ('container', 'model', 'aliased', 'pandas-ext'):
                 out.append({'span': kind, 'n': n, 'obj': obj})
     return out
 
@@ -226,6 +232,28 @@ def run_label_case(case):
                     out.append(('label:set:prepared:%s' % prep, want.tolist(), [after['N1'].tolist(), [after[o].tolist() for o in others], held.tolist()] if exc is None else repr(exc)[:80],
                                 'a label write to a variable filled from an array also changed %s or the array the caller holds' % others))
                     break
+        # ... and after the whole stack was replaced from an array the caller keeps: the label write reaches the object only
+        if not out and i != 'absent':
+            c, labels = make(kind, n, obj)
+            try:
+                kept = np.array(c.values, dtype=float) + 1.0
+                c.values = kept
+            except Exception:
+                kept = None
+            if kept is not None and kept.ndim == 2 and kept.size:
+                kept_before = kept.copy()
+                before = snap(c)
+                try:
+                    c['Y', label] = -7.5
+                    exc = None
+                except Exception as e:
+                    exc = e
+                after = snap(c)
+                want = before['Y'].copy()
+                want[i] = -7.5
+                if exc is not None or any(not same(after[k], want if k == 'Y' else before[k]) for k in before) or not same(kept, kept_before):
+                    out.append(('label:set:prepared:values-from-kept-array', want.tolist(), [after['Y'].tolist(), kept[0].tolist()] if exc is None else repr(exc)[:80],
+                                'a label write after `values = array` changed other cells or the array the caller holds'))
     return out
 
 
@@ -409,6 +437,21 @@ def run_reindex_case(case):
             if not same(c['Y', lab], c['Y'][i]):
                 out.append(('after-reindex:original', float(c['Y'][i]), repr(c['Y', lab])[:80], 'the original resolves labels differently after it was reindexed'))
                 break
+    if not out:
+        # label writes on the reindexed object: exactly that cell, on that object only
+        keep_orig = c['Y'].copy()
+        for j, lab in enumerate(new_labels):
+            before = r['Y'].copy()
+            try:
+                r['Y', lab] = -5.5 - j
+            except Exception as e:
+                out.append(('after-reindex:write:%s' % type(e).__name__, 'written', repr(e)[:120], 'a label write on the reindexed object fails'))
+                break
+            want = before.copy()
+            want[j] = -5.5 - j
+            if not same(r['Y'], want) or not same(c['Y'], keep_orig):
+                out.append(('after-reindex:write', want.tolist(), r['Y'].tolist(), 'a label write on the reindexed object changed other cells (or the original)'))
+                break
     return out
 
 
@@ -431,7 +474,7 @@ def run_block(block, tier, seed):
                 for key, exp, obs, what in safe(run_name_case, case, acc):
                     acc.violation(key, case, exp, obs, what)
     _, labels = spans.make(kind, n)
-    choices = list(range(n)) + ['absent'] + ([] if kind.startswith('np_') or kind == 'list_mixed' else ['absent-tuple'])
+    choices = list(range(n)) + ['absent'] + ([] if kind == 'list_mixed' else ['absent-tuple'])
     choices = choices + [['alt', i, j] for i in range(n) for j in range(len(alt_labels(labels[i])))] + [['absent-extra', j] for j in range(len(extra_absent(labels)))]
     for i in choices:
         for mode in ('get', 'set'):
